@@ -51,6 +51,128 @@ theorem DocRes.denotes {cfg lang r bs d st} (h : DocRes cfg lang r bs d st) (hl 
       List.append_nil, hv]
 
 
+/-- The typed source view of a whole tree: no parent, no `current_tag`, tag page 0. -/
+def vTree (c : WCfg) (r : Node) : List Tok := (vNode c none none 0 r).1
+
+/-- **The specification's reading of the output is the TYPED source view** — plain trees (no CDATA,
+    no embedded document) of every language but Wireless Village and OTA settings (for those two
+    the string table is never used and `DocRes.sameWalk` applies): typed attribute values, DRMREL
+    `ds:KeyValue` text, binary-flagged elements and aliased tag names (ActiveSync) included. -/
+theorem DocRes.denotesT {cfg lang r bs d st} (h : DocRes cfg lang r bs d st) (hl : langOk lang = true)
+    (htl : typedLangOk lang = true)
+    (hpn : plainNode r = true) (hnw : isWv lang.id = false) (hno : (lang.id == 1901) = false)
+    (hvs : valSemOk lang = true) (has : attrSemOk lang = true) (han : attrNameSemOk lang = true)
+    (pcfg : PCfg) (hlang : headerLang pcfg d.hdr = some lang) :
+    (Spec.events pcfg d).flatMap toks = vTree (dcfgOf cfg lang) r := by
+  have hf := docStartW_fields (dcfgOf cfg lang) r
+  obtain ⟨_, _, hview⟩ := h.viewT hpn (by rw [dcfgOf_lang]; exact hnw) (by rw [dcfgOf_lang]; exact hno) hf.2.2.2.2.2
+  have hrd : RdT (dcfgOf cfg lang) st.strtbl (headerCtx pcfg d.hdr lang) :=
+    ⟨by simp [headerCtx], h.resolves pcfg, by rw [dcfgOf_lang]; exact hl, by rw [dcfgOf_lang]; exact hvs,
+      by rw [dcfgOf_lang]; exact has, by rw [dcfgOf_lang]; exact han, by rw [dcfgOf_lang]; exact htl⟩
+  have hpos : Pos (dcfgOf cfg lang) (headerCtx pcfg d.hdr lang) none
+      (docStartW (dcfgOf cfg lang) r).curTag false true none none := by
+    rw [hf.2.2.2.1]; exact Pos.root _ _ true
+  have hv := hview (headerCtx pcfg d.hdr lang) hrd false true none none hpos
+  rw [hf.2.1, hf.2.2.1, hf.2.2.2.1, evItems_single_events, evItem_elem] at hv
+  unfold Spec.events
+  rw [hlang, h.pre, h.post]
+  simp only [evPis, List.nil_append, List.flatMap_cons, List.flatMap_append, List.flatMap_nil, toks,
+    List.append_nil, hv, vTree]
+
+theorem vAttr_congr (c c' : WCfg) (hl : c.lang = c'.lang) (a : Attr) : vAttr c a = vAttr c' a := by
+  unfold vAttr vAttrValue startRow
+  rw [hl]
+
+theorem vAttrs_congr (c c' : WCfg) (hl : c.lang = c'.lang) (attrs : List Attr) : vAttrs c attrs = vAttrs c' attrs := by
+  unfold vAttrs
+  rw [hl]
+  congr 1
+  exact List.map_congr_left (fun a _ => vAttr_congr c c' hl a)
+
+theorem vText_congr (c c' : WCfg) (hl : c.lang = c'.lang) (hi : c.ignoreEmpty = c'.ignoreEmpty)
+    (hr : c.removeBlanks = c'.removeBlanks) (parent : Option Name) (cur : Option TagRow) (s : Bytes) :
+    vText c parent cur s = vText c' parent cur s := by
+  unfold vText textSilent textArg normText
+  rw [hl, hi, hr]
+
+mutual
+/-- The typed source view depends on the options only through the language and the white-space policy. -/
+theorem vNode_congr (c c' : WCfg) (hl : c.lang = c'.lang) (hi : c.ignoreEmpty = c'.ignoreEmpty)
+    (hr : c.removeBlanks = c'.removeBlanks) :
+    ∀ (n : Node) (parent : Option Name) (cur : Option TagRow) (tp : Nat),
+      vNode c parent cur tp n = vNode c' parent cur tp n
+  | .elt name attrs kids, parent, cur, tp => by
+    simp only [vNode, vNodes_congr c c' hl hi hr kids, vAttrs_congr c c' hl, hl]
+  | .text s, parent, cur, tp => by simp only [vNode, vText_congr c c' hl hi hr]
+  | .cdata _, parent, cur, tp => by simp only [vNode]
+  | .tree _ _ _, parent, cur, tp => by simp only [vNode]
+theorem vNodes_congr (c c' : WCfg) (hl : c.lang = c'.lang) (hi : c.ignoreEmpty = c'.ignoreEmpty)
+    (hr : c.removeBlanks = c'.removeBlanks) :
+    ∀ (l : List Node) (parent : Option Name) (cur : Option TagRow) (tp : Nat),
+      vNodes c parent cur tp l = vNodes c' parent cur tp l
+  | [], parent, cur, tp => by simp only [vNodes]
+  | n :: r, parent, cur, tp => by
+    simp only [vNodes, vNode_congr c c' hl hi hr n, vNodes_congr c c' hl hi hr r]
+end
+
+theorem textSilent_congr (c c' : WCfg) (hi : c.ignoreEmpty = c'.ignoreEmpty) (hr : c.removeBlanks = c'.removeBlanks)
+    (s : Bytes) : textSilent c s = textSilent c' s ∧ textArg c s = textArg c' s := by
+  unfold textSilent textArg
+  rw [hi, hr]
+  exact ⟨rfl, rfl⟩
+
+mutual
+/-- The source hypotheses that mention the options depend on them only through the language and
+    the white-space policy. -/
+theorem b64TextDecodes_congr (c c' : WCfg) (hl : c.lang = c'.lang) (hi : c.ignoreEmpty = c'.ignoreEmpty)
+    (hr : c.removeBlanks = c'.removeBlanks) :
+    ∀ (n : Node) (parent : Option Name), b64TextDecodes c parent n = b64TextDecodes c' parent n
+  | .elt nm attrs kids, parent => by
+    rw [b64TextDecodes, b64TextDecodes, b64TextDecodesL_congr c c' hl hi hr kids, hl]
+  | .text s, parent => by
+    rw [b64TextDecodes, b64TextDecodes, (textSilent_congr c c' hi hr s).1, (textSilent_congr c c' hi hr s).2, hl]
+  | .cdata kids, parent => by rw [b64TextDecodes, b64TextDecodes, b64TextDecodesL_congr c c' hl hi hr kids]
+  | .tree _ _ _, parent => by rw [b64TextDecodes, b64TextDecodes]
+theorem b64TextDecodesL_congr (c c' : WCfg) (hl : c.lang = c'.lang) (hi : c.ignoreEmpty = c'.ignoreEmpty)
+    (hr : c.removeBlanks = c'.removeBlanks) :
+    ∀ (l : List Node) (parent : Option Name), b64TextDecodesL c parent l = b64TextDecodesL c' parent l
+  | [], parent => by rw [b64TextDecodesL, b64TextDecodesL]
+  | n :: r, parent => by
+    rw [b64TextDecodesL, b64TextDecodesL, b64TextDecodes_congr c c' hl hi hr n, b64TextDecodesL_congr c c' hl hi hr r]
+end
+
+mutual
+theorem keyValueTextFirst_congr (c c' : WCfg) (hl : c.lang = c'.lang) (hi : c.ignoreEmpty = c'.ignoreEmpty)
+    (hr : c.removeBlanks = c'.removeBlanks) :
+    ∀ (n : Node) (parent : Option Name) (pre : Bool), keyValueTextFirst c parent pre n = keyValueTextFirst c' parent pre n
+  | .elt nm attrs kids, parent, pre => by
+    rw [keyValueTextFirst, keyValueTextFirst, keyValueTextFirstL_congr c c' hl hi hr kids]
+  | .text s, parent, pre => by
+    rw [keyValueTextFirst, keyValueTextFirst, (textSilent_congr c c' hi hr s).1, hl]
+  | .cdata kids, parent, pre => by rw [keyValueTextFirst, keyValueTextFirst, keyValueTextFirstL_congr c c' hl hi hr kids]
+  | .tree _ _ _, parent, pre => by rw [keyValueTextFirst, keyValueTextFirst]
+theorem keyValueTextFirstL_congr (c c' : WCfg) (hl : c.lang = c'.lang) (hi : c.ignoreEmpty = c'.ignoreEmpty)
+    (hr : c.removeBlanks = c'.removeBlanks) :
+    ∀ (l : List Node) (parent : Option Name) (pre : Bool), keyValueTextFirstL c parent pre l = keyValueTextFirstL c' parent pre l
+  | [], parent, pre => by rw [keyValueTextFirstL, keyValueTextFirstL]
+  | n :: r, parent, pre => by
+    rw [keyValueTextFirstL, keyValueTextFirstL, keyValueTextFirst_congr c c' hl hi hr n,
+      keyValueTextFirstL_congr c c' hl hi hr r]
+end
+
+mutual
+theorem noNested_of_plain : ∀ (n : Node), plainNode n = true → noNested n = true
+  | .elt _ _ kids, h => by rw [plainNode] at h; rw [noNested]; exact noNestedL_of_plain kids h
+  | .text _, _ => by rw [noNested]
+  | .cdata _, h => by rw [plainNode] at h; cases h
+  | .tree _ _ _, h => by rw [plainNode] at h; cases h
+theorem noNestedL_of_plain : ∀ (l : List Node), plainNodes l = true → noNestedL l = true
+  | [], _ => by rw [noNestedL]
+  | n :: r, h => by
+    rw [plainNodes, Bool.and_eq_true] at h
+    rw [noNestedL, noNested_of_plain n h.1, noNestedL_of_plain r h.2]; rfl
+end
+
 /-- The source view depends on the options only through the language and the white-space policy. -/
 theorem srcToks_congr (c c' : WCfg) (hl : c.lang = c'.lang) (hi : c.ignoreEmpty = c'.ignoreEmpty)
     (hr : c.removeBlanks = c'.removeBlanks) :
